@@ -106,6 +106,14 @@ def generate(ck):
         descs.append({"kind": "records", "params": [float(v) for v in p], "sats": pure})
         for ph in range(3):
             descs.append({"kind": "ladder", "params": [float(v) for v in p], "phase": ph, "m": 41, "split": 0.5})
+    # residual saturations whose SUM comes within 1e-5 .. 1e-12 of one (a narrow mobile range): still
+    # "summing to less than one", still admissible
+    for gap in (1e-5, 5e-6, 2.0**-20, 1e-9, 1e-12):
+        for a_, b_ in ((0.2, 0.3), (0.5, 0.25), (0.0, 0.6)):
+            pr_ = [2.0, 1.5, 3.0, a_, b_, 1.0 - a_ - b_ - gap, 0.9, 0.8, 1.0]
+            if pr_[3] + pr_[4] + pr_[5] < 1.0:
+                descs.append({"kind": "records", "params": pr_, "sats": pure + [[a_, b_, 1 - a_ - b_], [a_ + gap / 2, b_ + gap / 4, 1 - a_ - b_ - 0.75 * gap]], "narrow": True})
+                descs.append({"kind": "twophase", "params": pr_, "Sw": b_})
     for i in range(n):
         u = rng.random()
         p = _params(rng, fractional=(i % 4 != 0))
@@ -240,6 +248,18 @@ def _strict_fp(ck, desc, params):
 
 
 def run_case(ck, desc):
+    if desc["kind"] in ("records", "ladder", "twophase"):
+        try:
+            return _run_case(ck, desc)
+        except ValueError as e:
+            # these kinds only carry ADMISSIBLE parameters and saturations on the simplex
+            EVENTS.clear()
+            ck.violation("admissible-input-accepted", {"raised": repr(e), "residual_sum": float(sum(desc["params"][3:6]))}, desc)
+            return True, None
+    return _run_case(ck, desc)
+
+
+def _run_case(ck, desc):
     from bluebonnet.flow import RelPermParams, relative_permeabilities, relative_permeabilities_twophase
 
     params = RelPermParams(*desc["params"])
